@@ -58,18 +58,48 @@ def expect_pair(rep, facts, rule, ident, ref_pair, assign=False, label=None, bod
 
 # ------------------------------------------------------------------ role identification
 
+def unpack_words(t):
+    """p0[k] / p0.k -> p_k for a function that takes its f64 words as one array or tuple"""
+    from .terms import rebuild
+    def f_(a):
+        if a[0] in ("index", "field"):
+            base = a[1]
+            while tag(base) == "deref":
+                base = base[1]
+            k = a[2]
+            if base is P(0) and (isinstance(k, int) or (tag(k) == "const" and isinstance(k[2], int))):
+                return P(k if isinstance(k, int) else k[2])
+        return mk(*a)
+    return rebuild(t, f_, {})
+
+def packed_args(v, n):
+    """(a, b, c) when v is a call with n word arguments, or with one array / tuple of n words"""
+    if tag(v) == "call" and len(v) == 2 + n:
+        return tuple(v[2:])
+    if tag(v) == "call" and len(v) == 3 and tag(v[2]) == "agg" and v[2][1][0] in ("array", "tuple") and len(v[2][2]) == n:
+        return tuple(v[2][2])
+    return None
+
 def find_by_shape(facts, n_f64_args, ref_pair_fn):
     """local non-test functions taking n f64 and returning TwoFloat whose normal form equals ref"""
     N = norm.Normalizer("E")
     ref = ref_pair_fn(*[P(i) for i in range(n_f64_args)])
     exp = (N.norm(ref[0]), N.norm(ref[1]))
     out = []
+    packed_tys = ("[f64; %d]" % n_f64_args, "(" + ", ".join(["f64"] * n_f64_args) + ")")
     for b in facts.live:
-        if b.kind == "Closure" or b.inputs != ["f64"] * n_f64_args or b.output != TF:
+        packed = len(b.inputs) == 1 and b.inputs[0].lstrip("&") in packed_tys and n_f64_args > 1
+        if b.kind == "Closure" or not (b.inputs == ["f64"] * n_f64_args or packed) or b.output != TF:
             continue
         before = set(vg.COVERED)
         try:
-            got, t = nf_pair(facts, b)
+            if packed:
+                # the same n words handed over as one array / tuple: its components are the parameters
+                t = H.tree_of(facts, b, "prim")
+                v = H.value_of_leaf(t, False) if t[0] == "leaf" else None
+                got = H.pair_of(N.norm(unpack_words(v))) if v is not None else None
+            else:
+                got, t = nf_pair(facts, b)
         except vg.Unsupported:
             got = None
         if got and got[0] is exp[0] and got[1] is exp[1]:
@@ -409,8 +439,8 @@ def check_C05(ctx, rep):
             if assign and tag(v) == "call" and v[1] == "op:div:TwoFloat:TwoFloat" and len(v) == 4 and v[2] is P(0) and v[3] is P(1):
                 # the compound assignment stores the operator's result; the operator body is checked above
                 ok = True
-            elif tag(v) == "call" and v[1] in r3 and len(v) == 5:
-                got = (v[2], v[3], v[4])
+            elif tag(v) == "call" and v[1] in r3 and packed_args(v, 3) is not None:
+                got = packed_args(v, 3)
                 ok = all(a is b2 for a, b2 in zip(got, q))
                 if not ok:
                     for i in range(3):
